@@ -116,10 +116,10 @@ def build2():
     pkt = bytearray(range(100, 130))
     pkt[20:24] = bytes([10, 0, 0, 2])
     g.events.append('T %d %s' % (g.now, bytes(pkt).hex()))         # 3  packet: sequence number 1, nothing sent yet
-    ping(1, 0, 0x0201, 0x2001)      # 4  acknowledges 1/0 (never sent): first emission is numbered 1, offset 0
-    ping(1, 1, 0x0202, 0x2002)      # 5  number 2
-    ping(1, 2, 0x0203, 0x2003)      # 6  number 3
-    ping(1, 3, 0x0204, 0x2004)      # 7  number 4, last
+    ping(1, 0, 0x0201, 0x2001)      # 4  acknowledges 1/0 before it was ever sent: ignored, fragment 0 goes out
+    ping(1, 0, 0x0202, 0x2002)      # 5  now a real ack of 1/0: fragment 1
+    ping(1, 1, 0x0203, 0x2003)      # 6  fragment 2
+    ping(1, 2, 0x0204, 0x2004)      # 7  fragment 3, last
     return g, s
 
 
@@ -228,8 +228,9 @@ def main():
     out.append('Definition ex2_user (k : nat) : suser := getu (fst (nth k ex2_trace ([], []))) 0.')
     open(os.path.join(os.path.dirname(HERE), 'coq', 'ServerExamples.v'), 'w').write('\n'.join(out) + '\n')
     with open(os.path.join(os.path.dirname(HERE), 'corpus', 'C15', 'premature-ack-first-fragment-numbered-1.cases'), 'w') as f:
-        f.write('# an ack (seq 1, frag 0) arrives before fragment 0 of packet 1 was ever sent: the server counts it, the first\n'
-                '# fragment goes out with number 1 (offset 0, no data lost); generated by tools/gen_srv_examples.py\n')
+        f.write('# an ack (seq 1, frag 0) arrives before fragment 0 of packet 1 was ever sent: it must be ignored and the\n'
+                '# fragments go out as 0,1,2,3 (before iodine 1b8dff8 the first one went out as number 1);\n'
+                '# generated by tools/gen_srv_examples.py\n')
         f.write('H ' + g2.cfg() + ' ; ' + ' ; '.join(g2.events) + '\n')
     cp = os.path.join(os.path.dirname(HERE), 'corpus', 'C16')
     os.makedirs(cp, exist_ok=True)
